@@ -197,6 +197,27 @@ def run(check):
                   '/ %s; the client encoder puts them in fields 0 / 2 / 1' % (sorted(m_src), sorted(d0_src), sorted(d1_src)),
                   construct='field routing of %s' % q)
 
+  # ------------------------------------------------------------------ the encoders are total on the datapoints they are handed
+  r_t = check.rule('R-C15-encoder-total', 2, 'encoding a batch cannot fail on any queued datapoint (the batch has already left the queue)')
+  from ..effects import Effects
+  for q in ('CarbonLineClientProtocol._sendDatapointsNow', 'CarbonPickleClientProtocol._sendDatapointsNow'):
+    efn = cx.fn('carbon.client', q)
+    ef = Effects(cx)
+    # a batch: list of (metric text, (finite timestamp, number - an int or a float that may be nan / +-inf))
+    raised = ef.analyse(efn, ['TR', ('T', ('T', 'WS', ('T', 'FF', 'N?')))])
+    for k in sorted(ef.analysed):
+      check.functions_analysed.add(k)
+    seen_r = set()
+    for x in raised:
+      if x.key() in seen_r:
+        continue
+      seen_r.add(x.key())
+      r_t.violate('%s can raise' % q, x.fn, x.node, '%s can be raised by %s while a batch is being encoded: takeSomeFromQueue() has '
+                  'already removed the batch from the queue, so the datapoint that trips it and every datapoint after it in the '
+                  'message are lost' % ('an exception' if x.exc == 'TOP' else x.exc, x.what))
+    if not raised:
+      r_t.ok('%s: no operation can fail on a (text, (finite timestamp, int-or-float incl. inf)) item' % q, efn.loc())
+
   # ------------------------------------------------------------------ pickle encoder / decoder
   pfn = cx.fn('carbon.client', 'CarbonPickleClientProtocol._sendDatapointsNow')
   check.analysed(pfn)
